@@ -103,6 +103,18 @@ func genGen(r *rand.Rand, idx int, stream string) GenInput {
 			if stream == "exported-collision" && len(m.Params) >= 2 && !m.Variadic {
 				m.Params[0].Name, m.Params[1].Name = "id", "iD"
 			}
+			// Go: either all parameters are named or none
+			anyNamed := false
+			for k := range m.Params {
+				if m.Params[k].Name != "" {
+					anyNamed = true
+				}
+			}
+			for k := range m.Params {
+				if anyNamed && m.Params[k].Name == "" {
+					m.Params[k].Name = "_"
+				}
+			}
 			// distinct names again
 			seen := map[string]bool{}
 			for k := range m.Params {
